@@ -1655,7 +1655,7 @@ func runC18(ctx *Ctx) {
 
 func init() {
 	register("C18", "numbers: boundary values of each of the ten integer widths and both float widths (+-1, +-0.5, huge, infinite) decoded by the real FromCtyValue; "+
-		"round trip: random Go values of a fixed family of 49 Go types (all int widths, floats, string, bool, slices, arrays, string-keyed maps, pointers incl. **int, containers of pointers / of structs with pointer fields (every entry its own pointee; all-distinct three-entry values), "+
+		"round trip: random Go values of a fixed family of 67 Go types (61 + 6 near-miss struct types) (all int widths, floats, string, bool, slices, arrays, string-keyed maps, pointers incl. **int, containers of pointers / of structs with pointer fields (every entry its own pointee; all-distinct three-entry values), "+
 		"nested tagged structs, big.Int, big.Float, embedded cty.Value) through ImpliedType/ToCtyValue/FromCtyValue; decoding: generated cty values (unknown, null, marked, "+
-		"shaped for the target or arbitrary, tuples positionally, sets of primitive members in set iteration order) into every target type; irregular Go types (unsupported kinds, untagged structs, unexported tagged fields, non-string map keys) judged on the real code without the model; ImpliedType on every family type and on its error shapes. non-trivial = a boundary number or a nested Go type; distinct = distinct wire strings of the case", runC18)
+		"shaped for the target or arbitrary, tuples positionally, sets of primitive members in set iteration order) into every target type, every unmarked decode judged at every depth against a verdict computed from the public type information (must be refused / must be accepted / not judged: c18_d18shape.go); near misses: for every struct reachable from a family type, objects with systematically varied attribute sets (stray, missing nilable, both, as many strays as missing, missing required, renamed by typo / case, stray holding null, names in NFD) on values that otherwise fit; boundary numbers into big.Int, big.Float and pointer targets; irregular Go types (unsupported kinds, untagged structs, unexported tagged fields, non-string map keys) judged on the real code without the model; ImpliedType on every family type and on its error shapes. non-trivial = a boundary number or a nested Go type; distinct = distinct wire strings of the case", runC18)
 }
